@@ -132,9 +132,10 @@ def run(prog: Program, col: Collector, tier: str, refs: Optional[Refs] = None, c
         elif isinstance(v, ast.Call) and isinstance(v.func, ast.Attribute) and v.func.attr == "intersection" and {norm(v.func.value)} | {norm(a_) for a_ in v.args} == {prev, o}:
             col.ok(construct, "accumulated with .intersection starting from the first factor's ordinal", f.loc(st))
         elif (isinstance(v, ast.BinOp) and isinstance(v.op, ast.BitOr)) or (isinstance(v, ast.Call) and isinstance(v.func, ast.Attribute) and v.func.attr == "union") \
-                or norm(v) == o:
-            col.violation(construct, f"`{norm(v)[:60]}`: the ordinal of a variable must be the INTERSECTION of the ordinals of all factors that mention it; a union / the last factor's "
-                          "ordinal places the variable in plates it does not live in, and it is replicated or summed at the wrong level", f.loc(st))
+                or norm(v) == o or (isinstance(v, ast.Call) and isinstance(v.func, ast.Name) and v.func.id in ("min", "max")):
+            col.violation(construct, f"`{norm(v)[:60]}`: the ordinal of a variable must be the INTERSECTION of the ordinals of all factors that mention it; a union, the last factor's "
+                          "ordinal or the smallest / largest of them places the variable in plates it does not live in (sibling plates f(a,i), g(a,j): a lives in neither), and it is "
+                          "replicated or summed at the wrong level", f.loc(st))
         else:
             col.unresolved(construct, "accumulation of the ordinal not recognised", f.loc(st))
 
@@ -260,4 +261,44 @@ def run(prog: Program, col: Collector, tier: str, refs: Optional[Refs] = None, c
     col.check(ok, f"{sp.fq}::fold", "reduce(prod_op, factors, Number(UNITS[prod_op]))",
               "the partial results are not folded with prod_op from Number(UNITS[prod_op]): with no factors left (everything eliminated into nothing) the result must be the unit of the "
               "product", sp.loc(rets[0]) if rets else sp.loc())
+    # ---------------------------------------------------------------- R09.9 factors are counted with repetition
+    col.rule("R09.9", "no mapping or set is keyed by the factors themselves (the same factor may occur several times in a product)", floor=0)
+    n9 = 0
+    for f in prog.functions_in(prog.modules["funsor.sum_product"]):
+        if isinstance(f.node, ast.Lambda):
+            continue
+        seqs = {p_ for p_ in f.params if any(isinstance(lp, (ast.For, ast.comprehension)) and isinstance(lp.iter, ast.Name) and lp.iter.id == p_ for lp in ast.walk(f.node))}
+        # ... whose elements are terms: `.inputs` of the loop variable is read
+        term_seqs = set()
+        for lp in ast.walk(f.node):
+            if isinstance(lp, (ast.For, ast.comprehension)) and isinstance(lp.iter, ast.Name) and lp.iter.id in seqs and isinstance(lp.target, ast.Name):
+                scope = lp if isinstance(lp, ast.For) else f.module.parent.get(lp)
+                if any(isinstance(y, ast.Attribute) and y.attr in ("inputs", "input_vars") and isinstance(y.value, ast.Name) and y.value.id == lp.target.id for y in ast.walk(scope)):
+                    term_seqs.add(lp.iter.id)
+        for d in ast.walk(f.node):
+            keyed = None
+            if isinstance(d, (ast.DictComp, ast.SetComp)) and isinstance(d.generators[0].iter, ast.Name) and d.generators[0].iter.id in term_seqs and isinstance(d.generators[0].target, ast.Name):
+                key = d.key if isinstance(d, ast.DictComp) else d.elt
+                if isinstance(key, ast.Name) and key.id == d.generators[0].target.id:
+                    keyed = d
+            if isinstance(d, ast.Call) and norm(d.func).rsplit(".", 1)[-1] in ("OrderedDict", "dict") and d.args and isinstance(d.args[0], (ast.ListComp, ast.GeneratorExp)):
+                g = d.args[0]
+                if isinstance(g.generators[0].iter, ast.Name) and g.generators[0].iter.id in term_seqs and isinstance(g.generators[0].target, ast.Name) \
+                        and isinstance(g.elt, ast.Tuple) and g.elt.elts and isinstance(g.elt.elts[0], ast.Name) and g.elt.elts[0].id == g.generators[0].target.id:
+                    keyed = d
+            if isinstance(d, ast.Call) and isinstance(d.func, ast.Attribute) and d.func.attr == "fromkeys" and d.args and isinstance(d.args[0], ast.Name) and d.args[0].id in term_seqs:
+                keyed = d
+            if keyed is not None:
+                n9 += 1
+                col.violation(f"{f.fq}::{norm(keyed)[:60]}", f"`{norm(keyed)[:60]}` is keyed by the factors themselves: terms are interned, so a factor that occurs twice in the list is one "
+                              "key and its second occurrence drops out of the product (sum_product([f, f, g]) returns the value for [f, g]); positions have to be the keys", f.loc(keyed))
+    col.cur.analysed["mappings_keyed_by_factors"] = n9
+
+    # ---------------------------------------------------------------- prerequisites shared from other properties: what a plate product normalises /
+    # evaluates to (C08 R08.7: the red_op-is-bin_op branch reduces every operand over ALL plates, so an operand that does not mention
+    # the plate is raised to its size) and the (logaddexp, add) kernels of the einsum route (C15 R15.8)
+    from . import algebra, numerics
+    algebra.r_same_op(prog, col, refs, cat, "R09.6")
+    algebra.r_receiver_narrowed_reduce(prog, col, refs, cat, "R09.7")
+    numerics.run(prog, col, refs, cat, rule_log="R09.8", rule_safe=None)
     return col
